@@ -274,6 +274,21 @@ fn main() {
                 println!("  {e}");
             }
         }
+        "genpack" => {
+            // a small content pack for the loom container engine (C07 engine B): clusters of 2 blobs
+            // (override), compressed / raw / compressed, 6-byte contents
+            let out = PathBuf::from(args.opt("--file").expect("--file"));
+            jubako::verif::set_max_blobs_per_cluster(2);
+            let up = camino::Utf8PathBuf::from_path_buf(out.clone()).unwrap();
+            let mut c = jubako::creator::ContentPackCreator::new(&up, jubako::PackId::from(1), jubako::VendorId::from(VENDOR), Default::default(), Comp::Lz4(1).to_jbk()).expect("creator");
+            for i in 0..6u8 {
+                let hint = if (2..4).contains(&i) { jubako::creator::CompHint::No } else { jubako::creator::CompHint::Yes };
+                let bytes: Vec<u8> = (0..6).map(|k| b'A' + i * 4 + k % 4).collect();
+                c.add_content(Box::new(std::io::Cursor::new(bytes)), hint).expect("add");
+            }
+            c.finalize().expect("finalize");
+            println!("written {}", out.display());
+        }
         "dump" => {
             // re-dump one container directory with the current reader
             let d = PathBuf::from(&args.rest[0]);
